@@ -590,6 +590,9 @@ Proof.
   - intros Ho Hp. destruct (Hb Ho Hp) as [?|[?|Hq]]; auto.
     rewrite H0 in Hq. destruct Hq; [congruence|auto].
   - discriminate.
+  - intros Ho Hp. destruct (Hb Ho Hp) as [?|[?|Hq]]; auto.
+    rewrite H0 in Hq. destruct Hq; [congruence|auto].
+  - discriminate.
   - intros Ho. exfalso. apply (i_spin _ I c); auto.
   - intros Ho Hp. destruct (Hb Ho Hp) as [?|[?|Hq]]; auto.
     right; right. apply in_remove_h. auto.
@@ -613,6 +616,7 @@ Proof.
   - intros Ho Hp. destruct (Hb Ho Hp) as [?|[?|Hc]]; auto.
     right; left. destruct (pending (a_hs a h)); unfold b2z; lia.
   - intros Ho Hp. destruct (Hb Ho Hp) as [?|[?|Hc]]; auto; congruence.
+  - intros _ Hp. lia.
   - intros _ Hp. lia.
 Qed.
 
@@ -645,6 +649,7 @@ Proof.
               unfold b2z in *; eqb_cases; lia end).
   - pose proof (scan_head_open _ _ _ I H H0) as Ho. rewrite Ho, H1 in Hb. rewrite Ho. cbn [andb] in *.
     unfold b2z in *. lia.
+  - rewrite H1 in Hb. destruct (hst (a_hs a h)); cbn [andb] in *; unfold b2z in *; lia.
   - rewrite H1 in Hb. destruct (hst (a_hs a h)); cbn [andb] in *; unfold b2z in *; lia.
   - destruct H as [[Hp _]|[Hp _]]; rewrite Hp in Hb; cbn [andb];
       destruct (hst (a_hs a c)); destruct (pending (a_hs a c)); cbn [andb] in *; unfold b2z in *; lia.
@@ -1183,4 +1188,44 @@ Proof.
   exists s. split; [exact Hr|]. clear Hr. rewrite !andb_true_iff in Hc. destruct Hc as [[[[H1 H2] H3] H4] H5].
   destruct (l_pc (lp s)); try discriminate. destruct (l_stop (lp s)); try discriminate.
   repeat split; auto; lia.
+Qed.
+
+(* ---------------------------------------------------------------------- *)
+(* Handles created with a NULL callback                                     *)
+(* ---------------------------------------------------------------------- *)
+(* handle 0 has no callback (a pure waker); one sender sends on it twice *)
+Definition nc_cbf : nat -> bool := fun k => negb (Nat.eqb k 0).
+Definition nc_init : state := init nc_cbf 1 0 [OpRun true] nobeh [[0%nat; 0%nat]].
+Definition nc_sched1 : list nat :=
+  [1; 1; 1; 1; 1; 1;     (* first send *)
+   0; 0; 0; 0; 0]%nat.   (* uv_run: poll, drain, scan wq_async, scan h0, back to epoll_pwait *)
+
+(* the variant that tests the callback before the exchange: the flag stays set, the second
+   send returns at the pending check and the loop is never woken again *)
+Lemma null_check_first_loses_wakeup :
+  exists s, run_nullfirst nc_init (nc_sched1 ++ [1; 1]%nat) = Some s /\ quiescent s = true /\
+            hst (hs s 0%nat) = Open /\ pending (hs s 0%nat) = true /\
+            seen (hs s 0%nat) = 0 /\ published (hs s 0%nat) = 2.
+Proof.
+  destruct (ex_of_check (run_nullfirst nc_init (nc_sched1 ++ [1; 1]%nat))
+    (fun s => quiescent s && is_open (hs s 0%nat) && pending (hs s 0%nat) &&
+              (seen (hs s 0%nat) =? 0) && (published (hs s 0%nat) =? 2)))
+    as (s & Hr & Hc); [vm_compute; reflexivity|].
+  exists s. split; [exact Hr|]. clear Hr. rewrite !andb_true_iff in Hc. destruct Hc as [[[[H1 H2] H3] H4] H5].
+  unfold is_open in H2. destruct (hst (hs s 0%nat)); [|discriminate]. repeat split; auto; lia.
+Qed.
+
+(* the code as it is: the first wake-up is consumed (flag cleared), so the second send
+   writes the eventfd again and the loop leaves epoll_pwait once more *)
+Lemma null_callback_handle_wakes_loop :
+  exists s, run nc_init (nc_sched1 ++ [1; 1; 1; 1; 1; 1; 0; 0; 0; 0; 0]%nat) = Some s /\
+            quiescent s = true /\ pending (hs s 0%nat) = false /\ cb_count (hs s 0%nat) = 0 /\
+            seen (hs s 0%nat) = 2 /\ published (hs s 0%nat) = 2.
+Proof.
+  destruct (ex_of_check (run nc_init (nc_sched1 ++ [1; 1; 1; 1; 1; 1; 0; 0; 0; 0; 0]%nat))
+    (fun s => quiescent s && negb (pending (hs s 0%nat)) && (cb_count (hs s 0%nat) =? 0) &&
+              (seen (hs s 0%nat) =? 2) && (published (hs s 0%nat) =? 2)))
+    as (s & Hr & Hc); [vm_compute; reflexivity|].
+  exists s. split; [exact Hr|]. clear Hr. rewrite !andb_true_iff in Hc. destruct Hc as [[[[H1 H2] H3] H4] H5].
+  destruct (pending (hs s 0%nat)); [discriminate|]. repeat split; auto; lia.
 Qed.
